@@ -32,6 +32,7 @@ import glob
 import os
 import re
 import shutil
+import signal
 import subprocess
 import sys
 import time
@@ -103,7 +104,14 @@ TLC_JOBS = [
     _tlc("C20.U.eq", "MC_Stats_eq", "machine U of Stats.tla refines MC_Stats_apa.tla",
          dict(Vals0="{0,1}", Off="1", MaxLen="1", MaxB="6", BetaN="4", BetaD="5", Beta2N="1", Beta2D="2", NEp="3"),
          ["RefInit", "RefInv", "AlphaExact"], ["RefStep"], ("InitU", "NextU")),
+    _tlc("C20.ema.eq", "MC_EmaClosed_eq", "v / EmaClosed of Stats.tla (machine E, exact rationals) are V[t] / (p^t m0 + T[t][t]) over L d^t of "
+         "EmaClosed_proofs.tla, built by the recurrences that are the theorem's hypotheses",
+         dict(Vals0="{0,1,3}", Off="1", MaxLen="2", MaxB="3", BetaN="4", BetaD="5", Beta2N="1", Beta2D="2", NEp="3"),
+         ["Hyp", "EqRec", "EqClosed", "ThmInst", "EmaExact"], [], ("InitE", "NextE")),
     # thorough: the scopes the property checks themselves use
+    _tlc("C20.ema.eq.t", "MC_EmaClosed_eq", "as C20.ema.eq, beta = 1/2, batches of up to 3 values (L = 6)",
+         dict(Vals0="{0,2,5}", Off="2", MaxLen="3", MaxB="3", BetaN="1", BetaD="2", Beta2N="0", Beta2D="1", NEp="3"),
+         ["Hyp", "EqRec", "EqClosed", "ThmInst", "EmaExact"], [], ("InitE", "NextE"), "thorough"),
     _tlc("C12.eq.L.t", "MC_Layout_eq", "as C12.eq.L, B <= 4, depth <= 3", L_CONST_T,
          ["EqShape", "EqOwner", "RowOwner", "RoundTrip", "RowsStayOwned"], ["EqStepB", "EqStepU"], ("InitLL", "NextLL"), "thorough"),
     _tlc("C12.eq.S.t", "MC_Layout_eq", "as C12.eq.S, SB = 3, SK = 2", dict(L_CONST, SB="3", SK="2"),
@@ -123,6 +131,9 @@ TLAPM_JOBS = [
          claim="proved for all naturals: OwnerOfCopy, ModMod, BatchifyKeepsOwner (induction step of RowOwner at any depth), Stride, "
                "UnbatchifyKeepsOwner (induction step of RowsStayOwned), RoundTrip1, BestOfK (BestIsOwnMax for any B, K, any integer "
                "reward function)"),
+    dict(id="C20.ema.tlaps", tool="tlapm", module="EmaClosed_proofs", tier="thorough",
+         claim="proved by induction for any number of calls, any beta = p/d, any batch means: the EMA recurrence (EmaStep) has the "
+               "closed form beta^t m_0 + sum_j (1-beta) beta^(t-j) m_j (EmaClosed / EmaExact), integer-scaled"),
 ]
 
 
@@ -156,6 +167,21 @@ def _env(wd):
     return e
 
 
+def _sub(cmd, cwd, env, timeout):
+    """subprocess.run that kills the whole process group on timeout (tlapm leaves z3 / isabelle children otherwise)"""
+    p = subprocess.Popen(cmd, cwd=cwd, env=env, stdout=subprocess.PIPE, stderr=subprocess.STDOUT, text=True, start_new_session=True)
+    try:
+        out, _ = p.communicate(timeout=timeout)
+    except subprocess.TimeoutExpired:
+        try:
+            os.killpg(p.pid, signal.SIGKILL)
+        except OSError:
+            pass
+        p.communicate()
+        raise
+    return p.returncode, out
+
+
 def _result(job, ok, wall, detail):
     return {"id": job["id"], "module": job["module"], "tool": job["tool"], "claim": job["claim"], "ok": ok,
             "wall_s": round(wall, 1), "detail": detail}
@@ -169,18 +195,17 @@ def _run_apalache(job, tier, tag="", mutate=None):
         cmd = ["apalache-mc", "check", "--init=" + job["init"], "--next=" + job["next"], "--inv=" + job["inv"],
                "--length=%d" % job["length"], "--out-dir=" + out_dir, "--run-dir=" + os.path.join(out_dir, "run"), root + ".tla"]
         try:
-            p = subprocess.run(cmd, cwd=wd, env=_env(wd), capture_output=True, text=True, timeout=APA_TIMEOUT[tier])
+            rc, out = _sub(cmd, wd, _env(wd), APA_TIMEOUT[tier])
         except subprocess.TimeoutExpired:
             return _result(job, None, time.time() - t0, "timeout after %d s (%s)" % (APA_TIMEOUT[tier], wd))
         finally:
             shutil.rmtree(os.path.join(wd, "_tmp"), ignore_errors=True)
-        out = p.stdout + p.stderr
         open(os.path.join(wd, "apalache.log"), "w").write(" ".join(cmd) + "\n" + out)
         wall = time.time() - t0
-        if p.returncode == 0 and "The outcome is: NoError" in out:
+        if rc == 0 and "The outcome is: NoError" in out:
             n = len(re.findall(r"invariant \d+ holds", out))
             return _result(job, True, wall, "NoError; %d verification conditions hold" % n)
-        if p.returncode == 12 and "The outcome is: Error" in out:
+        if rc == 12 and "The outcome is: Error" in out:
             which = re.findall(r"State (\d+): (state|action) invariant (\d+) violated", out)
             cex = ""
             for f in sorted(glob.glob(os.path.join(out_dir, "run", "violation*.tla"))):
@@ -191,7 +216,7 @@ def _run_apalache(job, tier, tag="", mutate=None):
             return _result(job, False, wall, "counterexample: invariant %s of --inv=%s violated in state %s; %s" % (
                 ",".join(w[2] for w in which), job["inv"], ",".join(w[0] for w in which), cex[:1500]))
         err = re.findall(r"[^\n]*(?:rror|EXITCODE)[^\n]*", out)
-        return _result(job, None, wall, "apalache failed rc=%d: %s (%s)" % (p.returncode, " | ".join(err[:3])[:600], wd))
+        return _result(job, None, wall, "apalache failed rc=%d: %s (%s)" % (rc, " | ".join(err[:3])[:600], wd))
     except Exception as ex:                                   # never raise
         return _result(job, None, time.time() - t0, "harness error: %r" % (ex,))
 
@@ -241,16 +266,15 @@ def _run_tlapm(job, tier, tag="", mutate=None, threads=PAR, stretch=None):
                 'ISABELLE_TMP_PREFIX="%s"\n' % os.path.join(wd, "_tmp", "isabelle"))
         env["USER_HOME"] = home
         try:
-            p = subprocess.run(cmd, cwd=wd, env=env, capture_output=True, text=True, timeout=TLAPM_TIMEOUT)
+            rc, out = _sub(cmd, wd, env, TLAPM_TIMEOUT)
         except subprocess.TimeoutExpired:
             return _result(job, None, time.time() - t0, "timeout after %d s (%s)" % (TLAPM_TIMEOUT, wd))
         finally:
             shutil.rmtree(os.path.join(wd, "_tmp"), ignore_errors=True)
-        out = p.stdout + p.stderr
         open(os.path.join(wd, "tlapm.log"), "w").write(" ".join(cmd) + "\n" + out)
         wall = time.time() - t0
         m = re.search(r"All (\d+) obligations? proved", out)
-        if p.returncode == 0 and m:
+        if rc == 0 and m:
             return _result(job, True, wall, "all %s proof obligations proved" % m.group(1))
         m = re.search(r"(\d+)/(\d+) obligations? failed", out)
         if m:
@@ -258,7 +282,7 @@ def _run_tlapm(job, tier, tag="", mutate=None, threads=PAR, stretch=None):
             return _result(job, False, wall, "%s of %s proof obligations failed (lines %s of %s.tla)" % (
                 m.group(1), m.group(2), ",".join(lines[:8]), root))
         err = [l for l in out.splitlines() if "rror" in l or "abnormally" in l]
-        return _result(job, None, wall, "tlapm failed rc=%d: %s (%s)" % (p.returncode, " | ".join(err[:3])[:600], wd))
+        return _result(job, None, wall, "tlapm failed rc=%d: %s (%s)" % (rc, " | ".join(err[:3])[:600], wd))
     except Exception as ex:
         return _result(job, None, time.time() - t0, "harness error: %r" % (ex,))
 
@@ -341,6 +365,11 @@ MUTANTS = [
      ["C20.U.step", "C20.U.eq"]),
     ("Stats: inner baseline advanced while alpha = 0", [(STA, "/\\ cB' = (IF an = 0 THEN cB ELSE cB + 1)", "/\\ cB' = cB + 1")],
      ["C20.U.step", "C20.U.eq"]),
+    ("EMA: update forgets the d^t scaling (i.e. v' = beta v + (1 - beta) m / d^t)",
+     [("MC_EmaClosed_eq.tla", "P * W[t - 1] + (D - P) * Dp[t - 1] * m[t]", "P * W[t - 1] + (D - P) * m[t]")], ["C20.ema.eq"]),
+    ("EMA: closed-form sum weights p^(t-k+1)",
+     [("MC_EmaClosed_eq.tla", "U[t, k - 1] + (D - P) * Pp[t - k] * Dp[k - 1] * m[k]", "U[t, k - 1] + (D - P) * Pp[t - k + 1] * Dp[k - 1] * m[k]")],
+     ["C20.ema.eq"]),
     # the steps are ENABLED: "nothing ever happens" must be refuted from the real initial states
     ("sanity: a StepB / StepU / StepP / StepE / Next step exists (invariant `no step taken` must be violated)",
      [(LAY, "@APPEND@", "NoStepB == q = 1\nNoStepU == t = i"), (LOA, "@APPEND@", "NoStepP == pos = 0\nNoStepE == from = 1"),
@@ -353,7 +382,12 @@ ENABLED_JOBS = [_apa("C12.LB.enabled", "MC_Layout_apa", "InitB", "StepB", "NoSte
                 _apa("C17.E.enabled", "MC_Loader_apa", "InitE", "StepE", "NoStepE", 1, "StepE enabled"),
                 _apa("C20.run.enabled", "MC_TrainingRun_apa", "Init", "Next", "NoStep", 1, "Next enabled"),
                 _apa("C20.U.enabled", "MC_Stats_apa", "Init", "Next", "NoStep", 1, "Next enabled")]
-TLAPS_MUTANT = ("TLAPS: owner = r div B", [(IDX, "Owner(nB, i) == ((i - 1) % nB) + 1", "Owner(nB, i) == ((i - 1) \\div nB) + 1")])
+TLAPS_MUTANTS = [
+    ("TLAPS: owner = r div B", 0, [(IDX, "Owner(nB, i) == ((i - 1) % nB) + 1", "Owner(nB, i) == ((i - 1) \\div nB) + 1")]),
+    ("TLAPS: EMA recurrence without the d^t scaling", 1,
+     [("EmaClosed_proofs.tla", "\\A t \\in Nat : V[t + 1] = p * V[t] + (d - p) * Dp[t] * m[t + 1],",
+       "\\A t \\in Nat : V[t + 1] = p * V[t] + (d - p) * m[t + 1],")]),
+]
 
 
 def mutants(with_tlaps=True, only=None):
@@ -370,7 +404,8 @@ def mutants(with_tlaps=True, only=None):
         else:
             files = {m[0] for m in mutate}
             deps = {IDX: ("MC_Layout_apa", "MC_Layout_eq"), LAY: ("MC_Layout_apa",), LOA: ("MC_Loader_apa", "MC_Loader_eq"),
-                    TRA: ("MC_TrainingRun_apa", "MC_TrainingRun_eq"), STA: ("MC_Stats_apa", "MC_Stats_eq")}
+                    TRA: ("MC_TrainingRun_apa", "MC_TrainingRun_eq"), STA: ("MC_Stats_apa", "MC_Stats_eq"),
+                    "MC_EmaClosed_eq.tla": ("MC_EmaClosed_eq",)}
             mods = {m for f in files for m in deps[f]}
             jobs = [j for j in base.values() if j["module"] in mods and j["tier"] == "quick"]
         res = _run_jobs(jobs, "quick", tag="_m%d" % k, mutate=mutate)
@@ -380,11 +415,12 @@ def mutants(with_tlaps=True, only=None):
                      "not_caught": [e for e in expected if e not in caught], "tool_failures": broken,
                      "wall_s": round(time.time() - t0, 1),
                      "sample": next((r["detail"][:300] for r in res if r["ok"] is False), "")})
-    if with_tlaps:
+    for name, which, mutate in (TLAPS_MUTANTS if with_tlaps else ()):
         t0 = time.time()
-        r = _run_tlapm(TLAPM_JOBS[0], "thorough", tag="_mt", mutate=TLAPS_MUTANT[1], stretch=0.2)
-        rows.append({"mutant": TLAPS_MUTANT[0], "expected": ["C12.tlaps"], "caught_by": ["C12.tlaps"] if r["ok"] is False else [],
-                     "not_caught": [] if r["ok"] is False else ["C12.tlaps"], "tool_failures": [] if r["ok"] is not None else [r["detail"]],
+        job = TLAPM_JOBS[which]
+        r = _run_tlapm(job, "thorough", tag="_mt", mutate=mutate, stretch=0.2)
+        rows.append({"mutant": name, "expected": [job["id"]], "caught_by": [job["id"]] if r["ok"] is False else [],
+                     "not_caught": [] if r["ok"] is False else [job["id"]], "tool_failures": [] if r["ok"] is not None else [r["detail"]],
                      "wall_s": round(time.time() - t0, 1), "sample": r["detail"][:300]})
     return rows
 
